@@ -1,5 +1,6 @@
 (* C08 — Thread-safety markers are sound.  Property theorems only.
    The bounds are those of the CURRENT source (coq/Extracted.v is regenerated on every run). *)
+From CsModel Require Extracted.
 From CsModel Require Import Base AutoTrait.
 
 (* a handle can be sent to / shared with another thread only if everything reachable through it is
@@ -27,3 +28,9 @@ Theorem C08_unbounded_markers_refuted :
   exists a, is_send [] a = true /\ constructible [[]; []] a = true /\ deep true a = false /\ deep false a = false.
 Proof. exact unbounded_markers_refuted. Qed.
 Print Assumptions C08_unbounded_markers_refuted.
+
+(* every source fact this property's model depends on was found by the translator in the current
+   source (otherwise the model would be running on the values the proofs were written for) *)
+Theorem C08_facts_extracted : CsModel.Extracted.facts_found_C08 = true.
+Proof. reflexivity. Qed.
+Print Assumptions C08_facts_extracted.
